@@ -152,7 +152,7 @@ Definition covered (a : parr) : bool :=
   match p_ty a with
   | TNull | TBool | TFixed _ | TFixedBin _ => true
   | TBin _ utf8 => negb utf8
-  | TList _ _ _ | TDict _ _ _ | TRee _ _ => true
+  | TList _ _ _ | TListView _ _ _ | TDict _ _ _ | TRee _ _ => true
   | TFixedList _ nullable _ => nullable || Nat.eqb (p_off a) 0
   | TStruct _ => Nat.eqb (p_off a) 0
   | _ => false
